@@ -249,11 +249,12 @@ def lock_order(ctx, rule='C09.lock-order'):
         # methods that run while a transaction exists run under the transaction's lock (either kind)
         st = f.self_adt and last_seg(f.self_adt)
         in_tx = st in ('Tx', 'TxInner', 'Bucket', 'Cursor', 'Range', 'Buckets', 'KVPairs', 'InnerBucket')
+        fx = ctx.x(f)       # a writable guard hidden in a helper must still cut the writer-only part off for readers
         if in_tx:
-            entries.append((f, held_w, False))
-            entries.append((f, held_r, True))
+            entries.append((fx, held_w, False))
+            entries.append((fx, held_r, True))
         else:
-            entries.append((f, set(), False))
+            entries.append((fx, set(), False))
     from guards import writer_only_blocks
     edges = L.order_edges(entries, writer_only=lambda fn: writer_only_blocks(F, fn, ctx.du(fn))[0])
     # the begin function itself: edges inside it are collected with may-held (both paths)
